@@ -274,6 +274,9 @@ type nxCfg struct {
 	// client operation of the script must have completed (bounded liveness; use
 	// only with benign deviations)
 	RequireComplete bool
+	// BusyAllowedBefore: with RequireComplete, client operations with an id below
+	// this may instead have been refused at once with ErrSystemBusy (rate limiter)
+	BusyAllowedBefore int
 	// Store: "" = in-memory ILogDB; "pebble" / "tan" = the real log store on the
 	// host's MemFS (reopened at every restart)
 	Store string
@@ -290,6 +293,9 @@ type nxCfg struct {
 	// the script adds them as non-voting members ("A<at>:<id>") and starts them
 	// with join=true ("J<id>")
 	NonVotings int
+	// RateLimit > 0 sets config.MaxInMemLogSize: the node pauses its proposal
+	// queue while raft's in-memory log is over the limit (node.handleProposals)
+	RateLimit uint64
 }
 
 type nxMsg struct {
@@ -315,6 +321,7 @@ type nxCluster struct {
 	partition   uint32 // bitmask of hosts in group A; 0 = no partition
 	spos        int
 	lazy        map[uint64]bool // hosts whose apply worker is being held back (deviation)
+	scriptHold  map[uint64]bool // of those, the ones held by the scenario script
 	used        struct{ timeouts, ticks, crashes, drops, dups, reorders, writes, reads, lazy, heartbeats, transfers, stops, partitions, holdJobs int }
 	recordHooks bool
 	pool        *sync.Pool
@@ -344,7 +351,7 @@ func nxPeers(n int) map[uint64]string {
 
 func newNxCluster(cfg *nxCfg) *nxCluster {
 	c := &nxCluster{cfg: cfg, byID: map[uint64]*nxHost{}, leaderOf: map[uint64]uint64{}, voteOf: map[[2]uint64]uint64{},
-		applied: map[uint64]string{}, completedW: map[uint64]bool{}, lazy: map[uint64]bool{}, nextVal: 100}
+		applied: map[uint64]string{}, completedW: map[uint64]bool{}, lazy: map[uint64]bool{}, scriptHold: map[uint64]bool{}, nextVal: 100}
 	c.pool = &sync.Pool{}
 	c.pool.New = func() interface{} {
 		obj := &RequestState{}
@@ -387,7 +394,7 @@ func (c *nxCluster) startHost(h *nxHost) {
 	lr.SetCompactor(ss)
 	cfg := config.Config{ReplicaID: h.id, ShardID: nxShard, ElectionRTT: 10, HeartbeatRTT: 2,
 		CheckQuorum: c.cfg.CheckQuorum, PreVote: c.cfg.PreVote, Quiesce: c.cfg.Quiesce,
-		SnapshotEntries: c.cfg.SnapshotEntries, CompactionOverhead: 1000}
+		SnapshotEntries: c.cfg.SnapshotEntries, CompactionOverhead: 1000, MaxInMemLogSize: c.cfg.RateLimit}
 	peers, initial := nxPeers(c.cfg.N), true
 	if h.joiner {
 		peers, initial = map[uint64]string{}, false
@@ -811,6 +818,12 @@ func (c *nxCluster) scriptEvent(it string) uint32 {
 		return nxev(nxPartition, a, 0)
 	case 'E':
 		return nxev(nxHeal, 0, 0)
+	case 'z':
+		fmt.Sscanf(it[1:], "%d", &a)
+		return nxev(nxHoldApply, a, 0)
+	case 'Z':
+		fmt.Sscanf(it[1:], "%d", &a)
+		return nxev(nxReleaseApply, a, 0)
 	case 'A':
 		fmt.Sscanf(it[1:], "%d:%d", &a, &b)
 		return nxev(nxAddNonVoting, a, b)
@@ -868,7 +881,7 @@ func (c *nxCluster) defaultEvent() (uint32, bool) {
 	}
 	// a held-back apply worker is released before the scenario goes on
 	for _, h := range c.hosts {
-		if c.lazy[h.id] {
+		if c.lazy[h.id] && !c.scriptHold[h.id] {
 			return nxev(nxReleaseApply, uint32(h.id), 0), true
 		}
 	}
@@ -998,6 +1011,7 @@ func (c *nxCluster) Step(e uint32) (msg string) {
 		}
 	}()
 	c.clock++
+	fromScript := e&(1<<31) != 0
 	if c.cfg.MaxDev > 0 {
 		if e&(1<<31) != 0 {
 			c.spos++
@@ -1168,8 +1182,13 @@ func (c *nxCluster) Step(e uint32) (msg string) {
 	case nxHoldApply:
 		c.used.lazy++
 		c.lazy[uint64(a)] = true
+		if fromScript {
+			// held until the script releases it (the default schedule does not)
+			c.scriptHold[uint64(a)] = true
+		}
 	case nxReleaseApply:
 		delete(c.lazy, uint64(a))
+		delete(c.scriptHold, uint64(a))
 		c.settle(c.byID[uint64(a)])
 	case nxTransfer:
 		h := c.byID[uint64(a)]
